@@ -524,11 +524,11 @@ theorem decodePacketBody_uid (uid : Nat) (d : List Nat) (q : Req) (h : decodePac
 
 /-- Serializer.DecodeDnsRequest never panics for a command that has a request constructor; the request it returns
     names the user id of the header -/
-theorem decodeRequest_spec (cd : Codec) (code : Nat) (needsUser : Bool) (up : Nat) (req rest : List Nat) (uid : Nat)
+theorem decodeRequest_spec (cd : Codec) (hT : cd.Total) (code : Nat) (needsUser : Bool) (up : Nat) (req rest : List Nat) (uid : Nat)
     (hh : decodeHeader needsUser req = ok (some (rest, uid))) :
     ∃ r, decodeRequest cd code needsUser true up req = ok r ∧ ∀ q u, r = some q → q.uid? = some u → u = uid := by
   unfold decodeRequest
-  simp only [callField, ite_true, Res.bind_ok, hh]
+  simp only [callField, ite_true, Res.bind_ok, hh, Codec.decode_total hT]
   by_cases c1 : code = 118
   · simp only [c1, ite_true]
     refine ⟨_, rfl, ?_⟩
@@ -728,7 +728,7 @@ theorem good_frame_left {addr : Nat} {σ σ1 : Srv} {r : Res (Srv × Ans)} (hF :
 
 /-- ServerDnsListener.onMessage: from a state satisfying the invariant the handler does not panic, re-establishes the
     invariant, and leaves every session of another address untouched -/
-theorem onMessage_good (cd : Codec) (dom : List Nat) {σ : Srv} (hI : Inv σ) (m : Msg) : Good m.addr σ (onMessage cd dom σ m) := by
+theorem onMessage_good (cd : Codec) (hT : cd.Total) (dom : List Nat) {σ : Srv} (hI : Inv σ) (m : Msg) : Good m.addr σ (onMessage cd dom σ m) := by
   unfold onMessage
   obtain ⟨request, hreq⟩ := stripDomain_no_panic m.name dom
   obtain ⟨c, hc⟩ := findCmd_no_panic SA.Gen.commandTable request
@@ -761,7 +761,7 @@ theorem onMessage_good (cd : Codec) (dom : List Nat) {σ : Srv} (hI : Inv σ) (m
         · exact good_of hI1 hF1
         · split
           · exact good_of hI1 hF1
-          · obtain ⟨q, hq, hquid⟩ := decodeRequest_spec cd code needsUser (upOf σ1 user) request rest uid hh
+          · obtain ⟨q, hq, hquid⟩ := decodeRequest_spec cd hT code needsUser (upOf σ1 user) request rest uid hh
             rw [hq]
             simp only [Res.bind_ok]
             cases q with
@@ -986,11 +986,11 @@ namespace SA.DnsServer
 open SA.Go SA.Go.Res
 
 /-- which command letters decode to the two request kinds that carry no user id -/
-theorem decodeRequest_kind (cd : Codec) (code : Nat) (needsUser : Bool) (up : Nat) (req : List Nat) (q : Req)
+theorem decodeRequest_kind (cd : Codec) (hT : cd.Total) (code : Nat) (needsUser : Bool) (up : Nat) (req : List Nat) (q : Req)
     (h : decodeRequest cd code needsUser true up req = ok (some q)) :
     (∀ v, q = .version v → code = 118) ∧ (∀ c, q = .downTest c → code = 121) := by
   unfold decodeRequest at h
-  simp only [callField, ite_true, Res.bind_ok] at h
+  simp only [callField, ite_true, Res.bind_ok, Codec.decode_total hT] at h
   cases hh : decodeHeader needsUser req with
   | panic => simp [hh] at h
   | ok hd =>
